@@ -1,7 +1,7 @@
 (* Model of parse_go (src/main.rs): the argument loop and the "Decide time" block.
    i64 arithmetic on Z with truncating division (Z.quot); the sentinel -1 = "not given" / "no limit".
    Tokens are modelled after splitting: a keyword with the (already parsed) i64 that follows it.
-   What is not modelled here: str::parse failures other than the i8 range of `depth` (unwrap panics), "random". *)
+   What is not modelled here: str::parse failures (unwrap panics / early return on a malformed depth), "random". *)
 From Coq Require Import ZArith List Bool.
 Import ListNotations.
 Local Open Scope Z_scope.
@@ -20,7 +20,7 @@ Definition go_step (white : bool) (a : goargs) (k : kw) (v : Z) : option goargs 
   | Kwtime => Some (if white then mkGo (g_inc a) v (g_mtg a) (g_movetime a) (g_depth a) else a)
   | Kmovestogo => Some (mkGo (g_inc a) (g_time a) v (g_movetime a) (g_depth a))
   | Kmovetime => Some (mkGo (g_inc a) (g_time a) (g_mtg a) v (g_depth a))
-  | Kdepth => if (-128 <=? v) && (v <=? 127) then Some (mkGo (g_inc a) (g_time a) (g_mtg a) (g_movetime a) v) else None
+  | Kdepth => Some (mkGo (g_inc a) (g_time a) (g_mtg a) (g_movetime a) (Z.max 0 (Z.min v 127)))   (* parse::<i64>, clamp(0, i8::MAX) *)
   | Kinfinite => Some a
   end.
 
